@@ -68,6 +68,13 @@ fn invalid_heads() -> Vec<(&'static str, Vec<u8>)> {
     let mut h = String::from("CONNECT a.example:1 HTTP/1.1\r\nX-Pad: ");
     h.push_str(&"p".repeat(3000));
     v.push(("endless_head", h.into_bytes()));
+    // complete, well-formed heads just over and well over the size limit (1024 bytes): rejected however they arrive
+    for (name, total) in [("oversize_head_1025", 1025usize), ("oversize_head_1100", 1100), ("oversize_head_1500", 1500), ("oversize_head_2000", 2000), ("oversize_head_5000", 5000)] {
+        let fixed = "CONNECT a.example:1 HTTP/1.1\r\nHost: a.example:1\r\nX-Pad: \r\n\r\n".len();
+        let h = format!("CONNECT a.example:1 HTTP/1.1\r\nHost: a.example:1\r\nX-Pad: {}\r\n\r\n", "p".repeat(total - fixed));
+        assert_eq!(h.len(), total);
+        v.push((name, h.into_bytes()));
+    }
     v
 }
 
@@ -129,9 +136,15 @@ pub fn run(mut ctx0: Ctx) {
             let c = ctx.rng.range(1, h.len() as u64 - 1) as usize;
             jobs.push((format!("invalid_{}", class), split_at(&h, &[c]), None));
         }
-        if h.len() > 2000 {
+        if h.len() >= 2000 {
             // delivered in 100-byte reads: must be rejected around the 1 KiB limit
             jobs.push((format!("invalid_{}", class), h.chunks(100).map(|c| c.to_vec()).collect(), None));
+        }
+        if h.len() > 1024 {
+            for c in [1023usize, 1024, 1000, 512] {
+                jobs.push((format!("invalid_{}", class), split_at(&h, &[c]), None));
+            }
+            jobs.push((format!("invalid_{}", class), split_at(&h, &[300, 600, 900]), None));
         }
     }
     // incomplete head then EOF
